@@ -38,6 +38,11 @@ KW = {
     "idx_p_parent": (lambda i, j: [B("[" + str(i) + "]"), K("p"), B("[parent()]")], "[i].p[parent()]"),
     "star_parent": (lambda i, j: [K("*"), B("[parent()]")], "*[parent()]"),
     "p_parent_n": (lambda i, j: [K("p"), B("[parent()]"), K("n")], "p[parent()].n"),
+    "desc_parent": (lambda i, j: [B("[d.p>2]"), B("[parent()]")], "[d.p>2][parent()]"),
+    "desc_key_parent": (lambda i, j: [B("[d.p>2]"), K("d"), B("[parent()]")], "[d.p>2].d[parent()]"),
+    "hoh_desc_parent": (lambda i, j: [B("[x.p>2]"), B("[parent()]")], "[x.p>2][parent()] (descendant search on a hash, then parent)"),
+    "hoh_desc_key": (lambda i, j: [B("[x.p>2]"), K("y")], "[x.p>2].y"),
+    "deep_desc_parent": (lambda i, j: [K("**"), B("[p>2]"), B("[parent()]")], "**[p>2][parent()]"),
 }
 
 # keys containing each character the path syntax defines an escape for
@@ -189,7 +194,7 @@ def set_member_ok(k: int, slash: bool, via: int) -> bool:
     return _run(doc, path)
 
 
-QUICK = [("AOH3", "kw_haschild"), ("AOHX", "kw_nhaschild"), ("AOH3", "p_parent"), ("AOH3", "p"), ("AOHX", "kw_maxp"),
+QUICK = [("HOH", "hoh_desc_parent"), ("HOH", "hoh_desc_key"), ("AOHD", "desc_parent"), ("AOHD", "desc_key_parent"), ("HOH", "desc_parent"), ("AOH3", "kw_haschild"), ("AOHX", "kw_nhaschild"), ("AOH3", "p_parent"), ("AOH3", "p"), ("AOHX", "kw_maxp"),
          ("L3", "kw_max"), ("AOH3", "idx_p_parent"), ("HOH", "star_parent"), ("MM", "p_parent"),
          ("AOH3", "p_parent_n"), ("L3", "idx"), ("ML3", "el_gt"), ("AOHX", "at_gt"), ("AOHD", "deep_p"), ("MM", "deep"),
          ("HOH", "star_at"), ("M3", "key_sw"), ("MINT", "k1"), ("LL", "star_idx"), ("AOHD", "at_desc"), ("SET", "p"),
